@@ -10,6 +10,7 @@ lc=$1; tier=$2; shift; shift
 scratch=$(mktemp -d "$VERIF_SCRATCH/verif-$lc-XXXXXX")
 trap 'rm -rf "$scratch"' EXIT
 export GOFLAGS="-mod=mod $VERIF_MODFLAG"
+export GODEBUG=goindex=0   # the module-cache index ignores -overlay (new imports in instrumented files)
 if ! go build -o "$scratch/vinstr" ./cmd/vinstr 2>"$scratch/log"; then cat "$scratch/log" >&2; echo "BROKEN: vinstr build failed" >&2; exit 2; fi
 if ! "$scratch/vinstr" -dir /verif -out "$scratch/instr" -stats "$scratch/instr-stats.json" "$@" >"$scratch/log" 2>&1; then cat "$scratch/log" >&2; echo "BROKEN: instrumentation failed" >&2; exit 2; fi
 if ! go build -overlay "$scratch/instr/overlay.json" -o "$scratch/$lc" ./props/$lc 2>"$scratch/log"; then cat "$scratch/log" >&2; echo "BROKEN: instrumented build of $lc failed" >&2; exit 2; fi
